@@ -45,8 +45,9 @@ Fixpoint t2_walk (processed released : list N) (l : list out) : bool :=
   | _ :: r => t2_walk processed released r
   end.
 
-(* T3: never two Released for one copy; only pushed copies are released; whenever Clear has
-   returned, every copy pushed so far has been released (hence exactly once) *)
+(* T3: never two Released for one copy; only pushed copies are released; after every PushEvent
+   the number of buffered events is (pushed - released), i.e. no copy has leaked; whenever Clear
+   has returned, every copy pushed so far has been released (hence exactly once) *)
 Fixpoint t3_walk (cs : list entry) (pushed released : list N) (l : list out) : bool :=
   match l with
   | [] => true
@@ -54,7 +55,10 @@ Fixpoint t3_walk (cs : list entry) (pushed released : list N) (l : list out) : b
     negb (memN c released)
     && match lookup cs c with Some x => eid x =? e | None => false end
     && t3_walk cs pushed (c :: released) r
-  | OPushed c _ _ _ :: r => t3_walk cs (c :: pushed) released r
+  | OPushed c _ num _ :: r =>
+    (* Total().Num = copies pushed so far minus copies released so far *)
+    (num =? N.of_nat (S (length pushed)) - N.of_nat (length released))
+    && t3_walk cs (c :: pushed) released r
   | OCleared num size :: r =>
     forallb (fun c => memN c released) pushed && (num =? 0) && (size =? 0)
     && t3_walk cs pushed released r
@@ -72,8 +76,14 @@ Fixpoint t4_walk (limN limS : N) (l : list out) : bool :=
 (* T5: completeness.  Premise (about the input and the oracle answers only): the history
    consists of pushes of distinct events forming a parents-closed DAG, the limits cannot bind,
    and no Check/Process failed.  Conclusion: every pushed event was processed. *)
-Definition only_pushes (ops : list op) : bool :=
-  forallb (fun o => match o with OpPush _ _ _ => true | _ => false end) ops.
+(* pushes only, optionally followed by one final Clear *)
+Fixpoint only_pushes (ops : list op) : bool :=
+  match ops with
+  | [] => true
+  | [OpClear] => true
+  | OpPush _ _ _ :: r => only_pushes r
+  | _ => false
+  end.
 Fixpoint nodupN (l : list N) : bool :=
   match l with [] => true | a :: r => negb (memN a r) && nodupN r end.
 (* peel: repeatedly resolve the events all of whose parents are resolved *)
